@@ -160,16 +160,16 @@ def overrides(ctx, calc, wd, ds):
         except Exception:
             ctx.violation(f"{fij.name} written with a unit override is not a table of numbers", {}, {"clause": "override_unit_ij"})
             return
-        if v3.shape != numpy.asarray(calc.volume_base.modulus_isothermal[k0])[:-4].shape or not numpy.allclose(v3, numpy.asarray(calc.volume_base.modulus_isothermal[k0])[:-4] * consts.RY_BOHR3_TO_GPA * 10.0, rtol=1e-7):
+        if v3.shape != numpy.asarray(calc.volume_base.modulus_isothermal[k0])[:-4].shape or not numpy.allclose(v3, numpy.asarray(calc.volume_base.modulus_isothermal[k0])[:-4] * consts.RY_BOHR3_TO_GPA * 10.0, rtol=1e-7, equal_nan=True):
             ctx.violation("unit override 'kbar' not honoured for the per-component keyword cij_t", {}, {"clause": "override_unit_ij"})
     if files != ["G_V_tp_gpa.txt", "my_bulk.dat"]:
         ctx.violation(f"file-name override not honoured: files {files}", {"files": files}, {"clause": "override_fname"})
         return
     _, _, v1 = parse_table(out / "my_bulk.dat")
-    if not numpy.allclose(v1, numpy.asarray(calc.pressure_base.bulk_modulus_voigt)[:-4] * consts.RY_BOHR3_TO_GPA, rtol=1e-7):
+    if not numpy.allclose(v1, numpy.asarray(calc.pressure_base.bulk_modulus_voigt)[:-4] * consts.RY_BOHR3_TO_GPA, rtol=1e-7, equal_nan=True):
         ctx.violation("my_bulk.dat does not contain the Voigt bulk modulus in GPa", {}, {"clause": "override_fname_content"})
     _, _, v2 = parse_table(out / "G_V_tp_gpa.txt")
-    if not numpy.allclose(v2, numpy.asarray(calc.pressure_base.shear_modulus_voigt)[:-4] * consts.RY_BOHR3_TO_GPA * 10.0, rtol=1e-7):
+    if not numpy.allclose(v2, numpy.asarray(calc.pressure_base.shear_modulus_voigt)[:-4] * consts.RY_BOHR3_TO_GPA * 10.0, rtol=1e-7, equal_nan=True):
         ctx.violation("unit override 'kbar' not honoured for G_V", {}, {"clause": "override_unit"})
 
 
